@@ -105,6 +105,19 @@ CHECKS.update({
             "DESIGN.md §2 C09"),
 })
 
+CHECKS.update({
+    "C12": ("exploration",
+            "per-server parsed command logs behind a multi-server FakeNet, with placement known to the harness through a harness-defined hasher= (and the default hasher cross-checked with the independent rendezvous reference)",
+            "Seeded scenarios (regenerated from their seed): 1..5 servers (TCP and UNIX), placements crc32 mod n / all-on-one / round-robin table / default rendezvous, key sets of 0..50 str or bytes keys with (server_key, key) pairs mixed in, prefix on/off, pooling on/off. Every single-key operation must reach only owner(k) with wire key prefix+k; set_many/get_many/gets_many/delete_many must send each key to owner(k) exactly once; get_many/gets_many must equal the per-key gets; everything written by set/set_many must be found by get, gets, touch, append, prepend, replace, incr, cas, add and delete; set_many's failed list must be the union of the per-server refusals.",
+            "One routing key per raw key within a scenario; str and bytes spellings never mixed for one key.",
+            "DESIGN.md §2 C12"),
+    "C16": ("exploration",
+            "differential monitor: identical reference servers behind five client stacks; parsed command streams, connection setup and outcomes compared with plain Client's",
+            "Grid: ~200 operation instances (every key-addressed op; noreply None/True/False; expire; flags; default/cas_default sentinels; key collections; bytes/str/int/non-ASCII values; hit/miss/cas match+mismatch/numeric/non-numeric/illegal keys) x single options and all pairs of options (key_prefix, default_noreply, encoding utf8, allow_unicode_keys, pickle/compressed/custom serde, legacy serializer functions, connect_timeout/timeout, no_delay; thorough adds sampled triples) x 4 stacks vs Client: same parsed commands in the same order, same socket options and timeouts on the connections, same return value or exception class, same resulting server keys.",
+            "Positional use of parameters whose position differs between classes, str key_prefix on HashClient, ignore_exc (whose documented scope differs per class) and multi-key calls with an illegal key on HashClient are outside the comparison.",
+            "DESIGN.md §2 C16"),
+})
+
 NOT_YET = "check not built yet in this round (runtime-monitoring design in DESIGN.md §2); will be claimed once its monitor exists"
 
 manifest = {
